@@ -195,11 +195,10 @@ class SrcEdit:
             if include_empty:
                 bound_ln = ln
 
-            elif g := m.group(1):
-                if g.startswith('#'):
-                    bound_ln = ln
+            elif (g := m.group(1)) and g.startswith('#'):
+                bound_ln = ln
 
-            elif not allpost:
+            elif not allpost:  # empty line or lone line continuation (which counts as empty space) ends the block
                 break
 
         return (bound_ln, bound_end_col) if bound_ln == bound_end_ln else (bound_ln + 1, 0)
